@@ -136,6 +136,43 @@ impl Monitor for C04 {
                     ctx.check(&case, &|c, st| self.judge(c, st));
                 }
             }
+            // long flat chains of one precedence class (33 terms and more, some far beyond 256 characters):
+            // left-to-right grouping must hold however long the chain is; operands of mixed magnitude
+            // make every other order of evaluation visible in f64
+            let terms: Vec<&str> = match ev {
+                Ev::I64 => vec!["1", "2", "3", "7", "1000000007", "4611686018427387904", "5"],
+                Ev::Dec => vec!["1", "0.1", "0.5", "3", "7922816251426433759354395033", "0.0000000000000000000000000001", "2.5"],
+                Ev::Cpx => vec!["1", "2i", "0.5", "(1+i)", "3", "(2-0.5i)"],
+                _ => vec!["1", "0.1", "0.5", "3", "9007199254740992", "10000000000000000", "0.25", "7", "1000000.5"],
+            };
+            let n_chain = ctx.tier.pick(6_000u64, 100_000);
+            for i in 0..n_chain {
+                if ctx.mine() {
+                    let mut rng = ctx.rng(&format!("chain/{}", ev.name()), i);
+                    let ops: Vec<&str> = match rng.below(3) {
+                        0 => vec!["+", "-"],
+                        1 if has_fact_mod(ev) => vec!["*", "/", "%"],
+                        1 => vec!["*", "/"],
+                        _ => vec!["+", "-", "+-", "--", "+"],
+                    };
+                    // one chain in fifty is several hundred terms long
+                    let (n_terms, max_chars) = if i % 50 == 0 { (150 + rng.below(350), 6000) } else { (33 + rng.below(80), 256) };
+                    let mut t = String::from(*rng.pick(&terms));
+                    let mut count = 1;
+                    while count < n_terms {
+                        let piece = format!("{}{}", *rng.pick(&ops), *rng.pick(&terms));
+                        if t.chars().count() + piece.chars().count() > max_chars {
+                            break;
+                        }
+                        t.push_str(&piece);
+                        count += 1;
+                    }
+                    if count >= 33 {
+                        let case = Case::new(ev, "chain", &t, Val::zero(ev)).with_extra("long chain");
+                        ctx.check(&case, &|c, st| self.judge(c, st));
+                    }
+                }
+            }
         }
     }
     fn judge(&self, case: &Case, st: &mut Stats) -> Verdict {
@@ -161,7 +198,7 @@ impl Monitor for C04 {
         v
     }
     fn rule(&self) -> &'static str {
-        "skeletons = every sequence up to the stated length over {operand slot, every binary/prefix/postfix operator, superscript, every bracket kind} that the reference grammar accepts (so every ordered pair and triple of adjacent operators occurs), each run under 3 assignments of small distinct exactly-representable operands (generic complex pairs for eval_complex); plus random operator trees of depth<=6; the value must equal the reference evaluation of the independently derived tree (bit-exact for f64, exact for i64/decimal/number, component-exact or 1e-9 for complex); non-trivial = accepted, specified grouping, reference gives a verdict; distinct = distinct (evaluator, expression)"
+        "skeletons = every sequence up to the stated length over {operand slot, every binary/prefix/postfix operator, superscript, every bracket kind} that the reference grammar accepts (so every ordered pair and triple of adjacent operators occurs), each run under 3 assignments of small distinct exactly-representable operands (generic complex pairs for eval_complex); plus random operator trees of depth<=6; plus flat chains of 33..110 terms of one precedence class (+ -, * / %, or + - with prefix signs) over operands of mixed magnitude, one in fifty with 150..500 terms; the value must equal the reference evaluation of the independently derived tree (bit-exact for f64, exact for i64/decimal/number, component-exact or 1e-9 for complex); non-trivial = accepted, specified grouping, reference gives a verdict; distinct = distinct (evaluator, expression)"
     }
     fn assumptions(&self) -> Vec<&'static str> {
         vec![
@@ -170,7 +207,7 @@ impl Monitor for C04 {
         ]
     }
     fn floors(&self, t: Tier) -> Vec<(String, u64)> {
-        vec![("judged.skeleton".into(), t.pick(20_000, 200_000)), ("set:operator_pairs.f64".into(), 100), ("set:operator_pairs.i64".into(), 100), ("set:operator_pairs.decimal".into(), 60), ("set:operator_pairs.complex".into(), 40), ("set:operator_pairs.number".into(), 100)]
+        vec![("judged.skeleton".into(), t.pick(20_000, 200_000)), ("judged.chain".into(), t.pick(2_000, 30_000)), ("set:operator_pairs.f64".into(), 100), ("set:operator_pairs.i64".into(), 100), ("set:operator_pairs.decimal".into(), 60), ("set:operator_pairs.complex".into(), 40), ("set:operator_pairs.number".into(), 100)]
     }
     fn exhaustive(&self) -> bool {
         false
